@@ -467,17 +467,21 @@ def c11(tier, seed, work):
     rep = Report("C11", tier, seed)
     n = 12 if tier == "thorough" else 6
     common = dict(view=None, emit=None, invariants=["EmitInv", "Sound"])
-    tour_stage(rep, work, "ranges", "MC_Range", dict(N=n, CfgName="plain", LargeSizes=set()), ALL4, **common)
-    tour_stage(rep, work, "ranges-single", "MC_Range", dict(N=n, CfgName="single", LargeSizes=set()), ["singlemem", "singleos"], **common)
+    tour_stage(rep, work, "ranges", "MC_Range", dict(N=n, CfgName="plain", LargeSizes=set(), Versions="none"), ALL4, **common)
+    tour_stage(rep, work, "ranges-single", "MC_Range", dict(N=n, CfgName="single", LargeSizes=set(), Versions="none"), ["singlemem", "singleos"], **common)
     # ranges of objects met after a restart: the persistent backends reopened on their storage, and the single-bucket
     # backend restarted with an empty metadata store (objects without a metadata record, as files put into the served
     # directory by hand are)
-    tour_stage(rep, work, "ranges-after-restart", "MC_Range", dict(N=n, CfgName="plain", LargeSizes=set()), ["bolt", "multios"], reopen=True, **common)
-    tour_stage(rep, work, "ranges-single-fresh-metadata", "MC_Range", dict(N=n, CfgName="single", LargeSizes=set()), ["singlemem", "singleos"],
+    tour_stage(rep, work, "ranges-after-restart", "MC_Range", dict(N=n, CfgName="plain", LargeSizes=set(), Versions="none"), ["bolt", "multios"], reopen=True, **common)
+    tour_stage(rep, work, "ranges-single-fresh-metadata", "MC_Range", dict(N=n, CfgName="single", LargeSizes=set(), Versions="none"), ["singlemem", "singleos"],
                opts="freshmeta", reopen=True, **common)
+    # every range read from an OLDER version by its id, the current version being longer or shorter, or a delete marker
+    for vs in ("older", "marker"):
+        tour_stage(rep, work, "ranges-of-" + vs + "-version", "MC_Range", dict(N=n, CfgName="mem", LargeSizes=set(), Versions=vs),
+                   ["mem"], **common)
     # beyond the small scope: an object of 3 MiB + 17 bytes, bounds at and around multiples of 1 MiB and around its end
     # (windows of exactly 1 and 2 MiB among them)
-    tour_stage(rep, work, "ranges-large-object", "MC_Range", dict(N=n, CfgName="plain", LargeSizes={3 * 1048576 + 17}),
+    tour_stage(rep, work, "ranges-large-object", "MC_Range", dict(N=n, CfgName="plain", LargeSizes={3 * 1048576 + 17}, Versions="none"),
                ALL4 if tier == "thorough" else ["mem", "multimem"], hworkers=4, **common)
     rep.assumptions += [
         "values >= 2^31 are one symbolic bound 'beyond the end' (objects are smaller); >= 2^63 is malformed",
@@ -528,6 +532,12 @@ def c16(tier, seed, work):
                    store_consts(Buckets={"bkt1"}, KeySetName="list", Bodies={"x1"}, Ghosts=False,
                                 OpNames={"CreateBucket", "PutObject", "GetObject", "HeadObject", "DeleteObject", "CopyObject", "ListObjects"}),
                    ["mem", "bolt"], opts=opts, addr=addr, keys="rich", small=True)
+    # a query parameter that means something on a bucket only (?location) riding along on every object-level request
+    for opts, addr in (("", "+q=location"), ("hostbucket", "host:!s3.test+q=location"), ("bases=s3.test", "host:s3.test+q=location")):
+        tour_stage(rep, work, "bucket-level-query-on-objects " + (opts or "path") + "/" + addr, "MC_Store",
+                   store_consts(Buckets={"bkt1"}, KeySetName="nest2", Bodies={"x1"}, Ghosts=False,
+                                OpNames={"CreateBucket", "PutObject", "GetObject", "HeadObject", "DeleteObject", "ListObjects"}),
+                   ["mem", "multimem"], opts=opts, addr=addr, small=True)
     # a bucket whose name is longer than any Host header in use, every operation kind incl. multipart, path-style and
     # host-style under each routing option
     longb = "a-bucket-with-quite-a-long-name-0123456789"
